@@ -43,6 +43,8 @@ type c20Case struct {
 	Big bool `json:"big"`
 	// Fast: a high limit; the transfer is the burst plus one second's worth
 	Fast bool `json:"fast"`
+	// Tiny: with Churn, a fresh connection for every 3000 bytes
+	Tiny bool `json:"tiny"`
 }
 
 const mib = 1 << 20
@@ -161,7 +163,7 @@ func c20Run(e *env) {
 }
 
 func c20Case1(seed int64, idx int, c *c20Case) (map[string]any, []map[string]any) {
-	res := map[string]any{"ok": true, "c": c.C, "exp": c.Exp, "big": c.Big}
+	res := map[string]any{"ok": true, "c": c.C, "exp": c.Exp, "big": c.Big, "tiny": c.Tiny}
 	var rmu sync.Mutex
 	var aborted atomic.Bool
 	fail := func(why string) {
@@ -200,8 +202,12 @@ func c20Case1(seed int64, idx int, c *c20Case) (map[string]any, []map[string]any
 	iters := 1
 	if c.C.Churn {
 		// many short-lived connections: every worker moves its share 48 KiB at a time, each over a fresh connection
-		iters = int(per / (48 << 10))
-		per = 48 << 10
+		piece := int64(48 << 10)
+		if c.Tiny {
+			piece = 3000
+		}
+		iters = int(per / piece)
+		per = piece
 		total = per * int64(iters) * int64(c.C.Conns)
 	}
 	smp := &sampler{}
